@@ -1,6 +1,441 @@
-(* C20 — stub: model not yet built (the property is listed under not_applicable until it is). *)
-From Coq Require Import List ZArith Bool.
+(* C20 -- level names and the level HTTP endpoint.
+
+   Model of zapcore/level.go (String, CapitalString, MarshalText, unmarshalText,
+   UnmarshalText, Set, ParseLevel), level.go (AtomicLevel.UnmarshalText,
+   ParseAtomicLevel, SetLevel/Level) and http_handler.go (serveHTTP,
+   decodePutRequest, decodePutURL, decodePutJSON), following the Go text.
+
+   The name tables are NOT written here: they are regenerated from the source on
+   every run (Gen/Levels.v, translator gen/levels.go) and enter the model as a
+   record [levels]; every model function takes the tables as a parameter [d].
+   The specification (second half of the file) is written by hand from the
+   documentation and does not mention the generated tables or the model.
+
+   Standard library behaviour enters as oracle values carried by each case
+   (computed by the harness with net/http, encoding/json, yaml.v3 directly):
+   the parsed form of a request, the sequence of texts encoding/json hands to
+   UnmarshalText for the "level" key, the text a JSON/YAML document denotes.
+   No proofs in this file. *)
+From Coq Require Import List ZArith Bool Lia.
+From Coq Require String.
+Import String.StringSyntax.
+From Coq.Strings Require Import Byte.
 Import ListNotations.
 From Zap Require Import Base.Wire.
-Definition model (i : sx) : sx := SL [].
-Definition spec (i o : sx) : bool := false.
+From Zap Require Gen.Levels.
+Open Scope Z_scope.
+
+Definition lit (s : String.string) : bytes := String.list_byte_of_string s.
+Arguments lit _%string_scope.
+
+(* ------------------------------------------------------------------ *)
+(* generated facts *)
+
+Record levels := {
+  t_bits : Z;                                  (* type Level int8 *)
+  t_consts : list (bytes * Z);                 (* const block of zapcore/level.go *)
+  t_min : Z; t_max : Z; t_invalid : Z;         (* _minLevel, _maxLevel, InvalidLevel *)
+  t_string : list (Z * bytes); t_string_pre : bytes; t_string_post : bytes;
+  t_capital : list (Z * bytes); t_capital_pre : bytes; t_capital_post : bytes;
+  t_marshal_via : bytes;                       (* MarshalText = []byte(l.<via>()) *)
+  t_unmarshal : list (bytes * Z);              (* unmarshalText's switch *)
+  t_root : list (bytes * bytes)                (* package zap: X = zapcore.Y *)
+}.
+
+Definition G : levels := {|
+  t_bits := Gen.Levels.level_bits;
+  t_consts := Gen.Levels.level_consts;
+  t_min := Gen.Levels.min_level; t_max := Gen.Levels.max_level; t_invalid := Gen.Levels.invalid_level;
+  t_string := Gen.Levels.string_table;
+  t_string_pre := Gen.Levels.string_default_pre; t_string_post := Gen.Levels.string_default_post;
+  t_capital := Gen.Levels.capital_table;
+  t_capital_pre := Gen.Levels.capital_default_pre; t_capital_post := Gen.Levels.capital_default_post;
+  t_marshal_via := Gen.Levels.marshal_text_via;
+  t_unmarshal := Gen.Levels.unmarshal_table;
+  t_root := Gen.Levels.root_aliases
+|}.
+
+(* a Go `switch` over constants: the first (only) matching case *)
+Fixpoint assoc_z (t : list (Z * bytes)) (l : Z) : option bytes :=
+  match t with
+  | [] => None
+  | (k, v) :: r => if k =? l then Some v else assoc_z r l
+  end.
+Fixpoint assoc_b {A} (t : list (bytes * A)) (s : bytes) : option A :=
+  match t with
+  | [] => None
+  | (k, v) :: r => if bytes_eqb k s then Some v else assoc_b r s
+  end.
+
+Definition is_nil {A} (l : list A) : bool := match l with [] => true | _ => false end.
+
+(* fmt's %d of an int8 (|z| < 1000 is enough; the harness runs all 256 values) *)
+Definition digit (n : Z) : byte := byte_of_Z (48 + n).
+Definition fmt_d_nonneg (z : Z) : bytes :=
+  if z <? 10 then [digit z]
+  else if z <? 100 then [digit (z / 10); digit (z mod 10)]
+  else [digit (z / 100); digit ((z / 10) mod 10); digit (z mod 10)].
+Definition fmt_d (z : Z) : bytes := if z <? 0 then x2d :: fmt_d_nonneg (- z) else fmt_d_nonneg z.
+
+(* ------------------------------------------------------------------ *)
+(* zapcore/level.go *)
+
+(* func (l Level) String() string *)
+Definition level_string (d : levels) (l : Z) : bytes :=
+  match assoc_z (t_string d) l with
+  | Some s => s
+  | None => t_string_pre d ++ fmt_d l ++ t_string_post d
+  end.
+(* func (l Level) CapitalString() string *)
+Definition level_capital (d : levels) (l : Z) : bytes :=
+  match assoc_z (t_capital d) l with
+  | Some s => s
+  | None => t_capital_pre d ++ fmt_d l ++ t_capital_post d
+  end.
+(* func (l Level) MarshalText() ([]byte, error) { return []byte(l.String()), nil }
+   (the checker pins t_marshal_via = "String") *)
+Definition level_marshal_text (d : levels) (l : Z) : bytes := level_string d l.
+
+(* asciiToLower (after the fix; the original code called bytes.ToLower) *)
+Definition lower_byte (b : byte) : byte :=
+  let n := Z_of_byte b in if (65 <=? n) && (n <=? 90) then byte_of_Z (n + 32) else b.
+Definition ascii_lower (s : bytes) : bytes := map lower_byte s.
+
+(* func (l *Level) unmarshalText(text []byte) bool -- the pointer target is threaded:
+   (new value of *l, result) *)
+Definition unmarshal_step (d : levels) (tgt : Z) (text : bytes) : Z * bool :=
+  match assoc_b (t_unmarshal d) text with
+  | Some v => (v, true)
+  | None => (tgt, false)
+  end.
+
+(* func (l *Level) UnmarshalText(text []byte) error, l non-nil:
+     if !l.unmarshalText(text) && !l.unmarshalText(asciiToLower(text)) { return error }
+   result: (new value of *l, err == nil) *)
+Definition level_unmarshal_text (d : levels) (tgt : Z) (text : bytes) : Z * bool :=
+  let '(t1, ok1) := unmarshal_step d tgt text in
+  if ok1 then (t1, true) else unmarshal_step d t1 (ascii_lower text).
+
+(* the code before the fix: the second attempt used bytes.ToLower(text), a
+   Unicode-aware standard-library function; [lowered] is its answer (oracle) *)
+Definition level_unmarshal_text_orig (d : levels) (tgt : Z) (text lowered : bytes) : Z * bool :=
+  let '(t1, ok1) := unmarshal_step d tgt text in
+  if ok1 then (t1, true) else unmarshal_step d t1 lowered.
+
+(* func (l *Level) Set(s string) error { return l.UnmarshalText([]byte(s)) } *)
+Definition level_set (d : levels) (tgt : Z) (s : bytes) : Z * bool := level_unmarshal_text d tgt s.
+(* func ParseLevel(text string) (Level, error) { var level Level; err := level.UnmarshalText(..); return level, err } *)
+Definition parse_level (d : levels) (text : bytes) : Z * bool := level_unmarshal_text d 0 text.
+(* func (l Level) Enabled(lvl Level) bool { return lvl >= l } *)
+Definition level_enabled (l lvl : Z) : bool := l <=? lvl.
+
+(* ------------------------------------------------------------------ *)
+(* level.go: AtomicLevel{l *atomic.Int32}; None = the zero AtomicLevel (nil pointer) *)
+
+(* func (lvl *AtomicLevel) UnmarshalText(text []byte) error *)
+Definition atomic_unmarshal_text (d : levels) (a : option Z) (text : bytes) : Z * bool :=
+  let a1 := match a with Some v => v | None => 0 end in      (* lvl.l = &atomic.Int32{} *)
+  let '(l, ok) := level_unmarshal_text d 0 text in           (* var l zapcore.Level *)
+  if ok then (l, true) (* lvl.SetLevel(l) *) else (a1, false).
+(* func ParseAtomicLevel(text string) (AtomicLevel, error): a := NewAtomicLevel() (info) *)
+Definition parse_atomic_level (d : levels) (text : bytes) : Z * bool :=
+  let '(l, ok) := parse_level d text in
+  if ok then (l, true) else (0, false).
+
+(* ------------------------------------------------------------------ *)
+(* http_handler.go *)
+
+(* What encoding/json does with the request body when decoding into
+   struct{ Level *zapcore.Level `json:"level"` }, as reported by the oracle:
+   JErr: Decode fails whatever the level texts are (syntax error, EOF, a non-string
+   value for the key); otherwise the texts handed to UnmarshalText, in order, for
+   every string-valued occurrence of the key, and whether the pointer is nil at the end
+   (key absent, or its last occurrence is null). *)
+Inductive jbody := JErr | JOk (texts : list bytes) (final_nil : bool).
+
+Record request := {
+  r_method : bytes;                (* r.Method *)
+  r_ctype : bytes;                 (* r.Header.Get("Content-Type") *)
+  r_form : list (bytes * bytes);   (* r.FormValue(k) for every key k of the parsed form (oracle) *)
+  r_json : jbody
+}.
+
+Inductive decoded := DLevel (l : Z) | DBad.
+
+Definition s_level : bytes := Eval compute in lit "level".
+Definition s_get : bytes := Eval compute in lit "GET".
+Definition s_put : bytes := Eval compute in lit "PUT".
+Definition s_form_ctype : bytes := Eval compute in lit "application/x-www-form-urlencoded".
+Definition s_body_pre : bytes := Eval compute in lit "{""level"":""".
+Definition s_body_post : bytes := Eval compute in (lit """}" ++ [x0a]).
+
+(* r.FormValue(key) *)
+Definition form_value (f : list (bytes * bytes)) (k : bytes) : bytes :=
+  match assoc_b f k with Some v => v | None => [] end.
+
+(* func decodePutURL(r) *)
+Definition decode_put_url (d : levels) (r : request) : decoded :=
+  let lvl := form_value (r_form r) s_level in
+  if is_nil lvl then DBad                                          (* must specify logging level *)
+  else let '(l, ok) := level_unmarshal_text d 0 lvl in            (* var l zapcore.Level *)
+       if ok then DLevel l else DBad.
+
+(* encoding/json on pld.Level: for each string occurrence allocate the pointer if nil
+   (zero Level) and call UnmarshalText on it; an error is saved, decoding continues,
+   Decode returns the saved error at the end *)
+Fixpoint json_texts (d : levels) (p : option Z) (err : bool) (texts : list bytes) : option Z * bool :=
+  match texts with
+  | [] => (p, err)
+  | t :: r =>
+      let tgt := match p with Some v => v | None => 0 end in
+      let '(l, ok) := level_unmarshal_text d tgt t in
+      json_texts d (Some l) (err || negb ok) r
+  end.
+(* func decodePutJSON(body) *)
+Definition decode_put_json (d : levels) (j : jbody) : decoded :=
+  match j with
+  | JErr => DBad                                                   (* malformed request body *)
+  | JOk texts final_nil =>
+      let '(p, err) := json_texts d None false texts in
+      if err then DBad                                             (* malformed request body: unrecognized level *)
+      else if final_nil then DBad                                  (* must specify logging level *)
+      else match p with Some l => DLevel l | None => DBad end
+  end.
+(* func decodePutRequest(contentType, r) *)
+Definition decode_put_request (d : levels) (r : request) : decoded :=
+  if bytes_eqb (r_ctype r) s_form_ctype then decode_put_url d r else decode_put_json d (r_json r).
+
+(* bit i (i = 0..6) set iff level i-1 is enabled at threshold cur:
+   what a logger built on the AtomicLevel lets through *)
+Definition mask_levels : list (Z * Z) := [(-1, 1); (0, 2); (1, 4); (2, 8); (3, 16); (4, 32); (5, 64)].
+Definition enabled_mask (cur : Z) : Z :=
+  fold_right (fun '(l, bit) acc => if level_enabled cur l then bit + acc else acc) 0 mask_levels.
+
+(* observation of one request: status, body kind (1 = {"level":..}, 2 = {"error":..}),
+   raw body for kind 1, AtomicLevel.Level() after the request, live-logger mask after it *)
+Record resp := { status : Z; kind : Z; payload : bytes; after : Z; mask : Z }.
+
+Definition level_payload (d : levels) (l : Z) : bytes := s_body_pre ++ level_marshal_text d l ++ s_body_post.
+
+(* func (lvl AtomicLevel) serveHTTP(w, r) *)
+Definition serve (d : levels) (cur : Z) (r : request) : resp :=
+  if bytes_eqb (r_method r) s_get then
+    {| status := 200; kind := 1; payload := level_payload d cur; after := cur; mask := enabled_mask cur |}
+  else if bytes_eqb (r_method r) s_put then
+    match decode_put_request d r with
+    | DBad => {| status := 400; kind := 2; payload := []; after := cur; mask := enabled_mask cur |}
+    | DLevel l => (* lvl.SetLevel(requestedLvl); payload{Level: lvl.Level()} *)
+        {| status := 200; kind := 1; payload := level_payload d l; after := l; mask := enabled_mask l |}
+    end
+  else {| status := 405; kind := 2; payload := []; after := cur; mask := enabled_mask cur |}.
+
+Fixpoint run (d : levels) (cur : Z) (rs : list request) : list resp :=
+  match rs with
+  | [] => []
+  | r :: rest => let o := serve d cur r in o :: run d (after o) rest
+  end.
+Definition final_level (d : levels) (cur : Z) (rs : list request) : Z :=
+  fold_left (fun c r => after (serve d c r)) rs cur.
+
+(* ================================================================== *)
+(* Specification: written from the documentation, independent of the generated
+   tables and of the model functions above. *)
+
+Definition doc_names : list (Z * bytes) := Eval compute in
+  [(-1, lit "debug"); (0, lit "info"); (1, lit "warn"); (2, lit "error");
+   (3, lit "dpanic"); (4, lit "panic"); (5, lit "fatal")].
+(* the documented extra spellings: "warning", and the empty string ("make the zero value useful") *)
+Definition doc_aliases : list (bytes * Z) := Eval compute in [(lit "warning", 1); ([], 0)].
+Definition accept_list : list (bytes * Z) :=
+  Eval compute in (map (fun '(l, s) => (s, l)) doc_names ++ doc_aliases).
+
+Definition valid_level (l : Z) : bool := (-1 <=? l) && (l <=? 5).
+Definition valid_levels : list Z := [-1; 0; 1; 2; 3; 4; 5].
+
+Definition upper_byte (b : byte) : byte :=
+  let n := Z_of_byte b in if (97 <=? n) && (n <=? 122) then byte_of_Z (n - 32) else b.
+Definition ascii_upper (s : bytes) : bytes := map upper_byte s.
+
+(* the level a text names, if any: ASCII-case-insensitive match against the names and aliases *)
+Definition spec_parse (t : bytes) : option Z := assoc_b accept_list (ascii_lower t).
+(* outcome of reading text [t] into a target holding [tgt] *)
+Definition spec_result (tgt : Z) (t : bytes) : Z * bool :=
+  match spec_parse t with Some l => (l, true) | None => (tgt, false) end.
+
+Definition s_Level_pre : bytes := Eval compute in lit "Level(".
+Definition s_LEVEL_pre : bytes := Eval compute in lit "LEVEL(".
+Definition spec_name (l : Z) : bytes :=
+  match assoc_z doc_names l with Some s => s | None => s_Level_pre ++ fmt_d l ++ [x29] end.
+Definition spec_capital (l : Z) : bytes :=
+  match assoc_z doc_names l with Some s => ascii_upper s | None => s_LEVEL_pre ++ fmt_d l ++ [x29] end.
+
+Definition is_some {A} (o : option A) : bool := match o with Some _ => true | None => false end.
+
+(* "a PUT that names a valid level (JSON body or URL-encoded form)" *)
+Definition spec_names_level (r : request) : option Z :=
+  if bytes_eqb (r_method r) s_put then
+    if bytes_eqb (r_ctype r) s_form_ctype then
+      let v := form_value (r_form r) s_level in
+      if is_nil v then None else spec_parse v
+    else match r_json r with
+         | JErr => None
+         | JOk texts final_nil =>
+             if final_nil then None
+             else if forallb (fun t => is_some (spec_parse t)) texts then
+               match rev texts with [] => None | t :: _ => spec_parse t end
+             else None
+         end
+  else None.
+
+Definition spec_payload (l : Z) : bytes := s_body_pre ++ spec_name l ++ s_body_post.
+
+(* one request against level [cur]: GET reports; a PUT naming l sets exactly l and reports it;
+   everything else is answered 4xx with an error body and changes nothing *)
+Definition step_ok (cur : Z) (r : request) (o : resp) : bool :=
+  (if bytes_eqb (r_method r) s_get then
+     (status o =? 200) && (kind o =? 1) && bytes_eqb (payload o) (spec_payload cur) && (after o =? cur)
+   else match spec_names_level r with
+        | Some l => (status o =? 200) && (kind o =? 1) && bytes_eqb (payload o) (spec_payload l) && (after o =? l)
+        | None => (400 <=? status o) && (status o <? 500) && (kind o =? 2) && (after o =? cur)
+        end)
+  && (mask o =? enabled_mask (after o)).
+
+(* the level after a history: that of the last PUT naming a level, else the initial one *)
+Definition spec_final (cur : Z) (rs : list request) : Z :=
+  fold_left (fun c r => match spec_names_level r with Some l => l | None => c end) rs cur.
+
+(* ------------------------------------------------------------------ *)
+(* The decidable premise over the generated tables (Proofs.v proves it sound and
+   closes it for G by vm_compute). *)
+
+Definition opt_bytes_eqb (a b : option bytes) : bool :=
+  match a, b with Some x, Some y => bytes_eqb x y | None, None => true | _, _ => false end.
+Definition opt_z_eqb (a b : option Z) : bool :=
+  match a, b with Some x, Some y => x =? y | None, None => true | _, _ => false end.
+
+Definition doc_consts : list (bytes * Z) := Eval compute in
+  [(lit "DebugLevel", -1); (lit "InfoLevel", 0); (lit "WarnLevel", 1); (lit "ErrorLevel", 2);
+   (lit "DPanicLevel", 3); (lit "PanicLevel", 4); (lit "FatalLevel", 5);
+   (lit "_minLevel", -1); (lit "_maxLevel", 5); (lit "InvalidLevel", 6)].
+Definition s_String : bytes := Eval compute in lit "String".
+
+Definition checker (d : levels) : bool :=
+  (t_bits d =? 8) && (t_min d =? -1) && (t_max d =? 5) && (t_invalid d =? 6)
+  (* the constants have the documented values, and package zap re-exports them under the same names *)
+  && forallb (fun '(n, v) => opt_z_eqb (assoc_b (t_consts d) n) (Some v)) doc_consts
+  && forallb (fun '(a, b) => bytes_eqb a b && is_some (assoc_b (t_consts d) b)) (t_root d)
+  && forallb (fun '(n, _) => is_some (assoc_b (t_root d) n)) (firstn 7 doc_consts)
+  (* String / CapitalString: the documented names on the valid levels, no case for any other value *)
+  && forallb (fun l => opt_bytes_eqb (assoc_z (t_string d) l) (assoc_z doc_names l)) valid_levels
+  && forallb (fun '(l, _) => valid_level l) (t_string d)
+  && forallb (fun l => opt_bytes_eqb (assoc_z (t_capital d) l) (option_map ascii_upper (assoc_z doc_names l))) valid_levels
+  && forallb (fun '(l, _) => valid_level l) (t_capital d)
+  && bytes_eqb (t_string_pre d) s_Level_pre && bytes_eqb (t_string_post d) [x29]
+  && bytes_eqb (t_capital_pre d) s_LEVEL_pre && bytes_eqb (t_capital_post d) [x29]
+  && bytes_eqb (t_marshal_via d) s_String
+  (* unmarshalText's switch accepts exactly the documented names and aliases *)
+  && forallb (fun '(t, l) => opt_z_eqb (assoc_b accept_list t) (Some l)) (t_unmarshal d)
+  && forallb (fun '(t, l) => opt_z_eqb (assoc_b (t_unmarshal d) t) (Some l)) accept_list.
+
+(* ================================================================== *)
+(* Wire.
+   case (0 l tgt)                     one level value (all 256 are run), tgt = preset target of the round trips
+        (1 tgt #text jt yt)           one text; jt / yt = () or (#t): the text a JSON / YAML document built
+                                      from it denotes (oracle), absent when it cannot be represented
+        (2 init (req ...))            a request history against one AtomicLevel
+            req = (#method #ctype ((#k #v) ...) (jerr (#text ...) final_nil))
+   observation
+        0: (#String #CapitalString #MarshalText #json.Marshal #AtomicLevel.String #AtomicLevel.MarshalText
+            (rt ...))                 rt = (level ok): UnmarshalText(String), UnmarshalText(CapitalString),
+                                      json round trip, yaml round trip, each into a target holding tgt
+        1: (rt ...)                   the entry points in the order listed in harness/c20.go
+        2: ((status kind #payload after mask) ...)  *)
+
+Definition enc_rt (p : Z * bool) : sx := SL [SZ (fst p); of_bool (snd p)].
+Definition quote (s : bytes) : bytes := x22 :: s ++ [x22].
+
+Definition dec_opt_b (s : sx) : option bytes := match sx_l s with [] => None | x :: _ => Some (sx_b x) end.
+
+(* -- kind 0 -- *)
+Definition model_level (d : levels) (l tgt : Z) : sx :=
+  let s := level_string d l in
+  let c := level_capital d l in
+  let m := level_marshal_text d l in
+  SL [SB s; SB c; SB m; SB (quote m); SB s; SB m;
+      SL [enc_rt (level_unmarshal_text d tgt s); enc_rt (level_unmarshal_text d tgt c);
+          enc_rt (level_unmarshal_text d tgt m); enc_rt (level_unmarshal_text d tgt m)]].
+Definition expect_level (l tgt : Z) : sx :=
+  let s := spec_name l in
+  let c := spec_capital l in
+  SL [SB s; SB c; SB s; SB (quote s); SB s; SB s;
+      SL [enc_rt (spec_result tgt s); enc_rt (spec_result tgt c);
+          enc_rt (spec_result tgt s); enc_rt (spec_result tgt s)]].
+
+(* -- kind 1 -- *)
+Definition opt_rt (f : bytes -> Z * bool) (o : option bytes) : sx :=
+  match o with Some t => enc_rt (f t) | None => SL [] end.
+Definition model_text (d : levels) (tgt : Z) (text : bytes) (jt yt : option bytes) : sx :=
+  SL [enc_rt (level_unmarshal_text d tgt text);          (* Level ptr.UnmarshalText *)
+      enc_rt (level_set d tgt text);                     (* Level ptr.Set *)
+      enc_rt (parse_level d text);                       (* zapcore.ParseLevel *)
+      enc_rt (level_set d tgt text);                     (* flag.FlagSet.Parse -> Set *)
+      enc_rt (level_set d tgt text);                     (* zap.LevelFlag + flag.Set *)
+      enc_rt (atomic_unmarshal_text d (Some tgt) text);  (* AtomicLevel ptr.UnmarshalText *)
+      enc_rt (parse_atomic_level d text);                (* zap.ParseAtomicLevel *)
+      enc_rt (atomic_unmarshal_text d None text);        (* zero AtomicLevel{}.UnmarshalText *)
+      opt_rt (level_unmarshal_text d tgt) jt;            (* encoding/json -> UnmarshalText *)
+      opt_rt (atomic_unmarshal_text d (Some tgt)) jt;    (* encoding/json into an AtomicLevel *)
+      opt_rt (level_unmarshal_text d tgt) yt].           (* yaml.v3 -> UnmarshalText *)
+Definition expect_text (tgt : Z) (text : bytes) (jt yt : option bytes) : sx :=
+  SL [enc_rt (spec_result tgt text);
+      enc_rt (spec_result tgt text);
+      enc_rt (spec_result 0 text);
+      enc_rt (spec_result tgt text);
+      enc_rt (spec_result tgt text);
+      enc_rt (spec_result tgt text);
+      enc_rt (spec_result 0 text);
+      enc_rt (spec_result 0 text);
+      opt_rt (spec_result tgt) jt;
+      opt_rt (spec_result tgt) jt;
+      opt_rt (spec_result tgt) yt].
+
+(* -- kind 2 -- *)
+Definition dec_json (s : sx) : jbody :=
+  if sx_bool (sx_nth s 0) then JErr
+  else JOk (map sx_b (sx_l (sx_nth s 1))) (sx_bool (sx_nth s 2)).
+Definition dec_req (s : sx) : request :=
+  {| r_method := sx_b (sx_nth s 0);
+     r_ctype := sx_b (sx_nth s 1);
+     r_form := map (fun p => (sx_b (sx_nth p 0), sx_b (sx_nth p 1))) (sx_l (sx_nth s 2));
+     r_json := dec_json (sx_nth s 3) |}.
+Definition enc_resp (o : resp) : sx :=
+  SL [SZ (status o); SZ (kind o); SB (payload o); SZ (after o); SZ (mask o)].
+Definition dec_resp (s : sx) : resp :=
+  {| status := sx_z (sx_nth s 0); kind := sx_z (sx_nth s 1); payload := sx_b (sx_nth s 2);
+     after := sx_z (sx_nth s 3); mask := sx_z (sx_nth s 4) |}.
+
+Fixpoint spec_hist (cur : Z) (rs : list request) (os : list sx) : bool :=
+  match rs, os with
+  | [], [] => true
+  | r :: rs', o :: os' => let ob := dec_resp o in step_ok cur r ob && spec_hist (after ob) rs' os'
+  | _, _ => false
+  end.
+
+Definition wf (i : sx) : bool :=
+  let k := sx_z (sx_nth i 0) in (0 <=? k) && (k <=? 2).
+
+Definition model (i : sx) : sx :=
+  match sx_z (sx_nth i 0) with
+  | 0 => model_level G (sx_z (sx_nth i 1)) (sx_z (sx_nth i 2))
+  | 1 => model_text G (sx_z (sx_nth i 1)) (sx_b (sx_nth i 2)) (dec_opt_b (sx_nth i 3)) (dec_opt_b (sx_nth i 4))
+  | 2 => SL (map enc_resp (run G (sx_z (sx_nth i 1)) (map dec_req (sx_l (sx_nth i 2)))))
+  | _ => SL []
+  end.
+
+Definition spec (i o : sx) : bool :=
+  match sx_z (sx_nth i 0) with
+  | 0 => sx_eqb o (expect_level (sx_z (sx_nth i 1)) (sx_z (sx_nth i 2)))
+  | 1 => sx_eqb o (expect_text (sx_z (sx_nth i 1)) (sx_b (sx_nth i 2)) (dec_opt_b (sx_nth i 3)) (dec_opt_b (sx_nth i 4)))
+  | 2 => spec_hist (sx_z (sx_nth i 1)) (map dec_req (sx_l (sx_nth i 2))) (sx_l o)
+  | _ => false
+  end.
